@@ -70,8 +70,8 @@ func checkC09(p *Program, r *Reporter) {
 			}
 		}
 	}
-	r.Rule("E5-PACING", "every chunk write is guarded by 'chunk end < now' (roles and dependences checked) or follows a sleep for the remaining time", 3)
-	r.Rule("E5-AFTERGEN", "chunks are written only after the segment generator (availability test included) succeeded", 3)
+	r.Rule("E5-PACING", "every path to a chunk write passes the true edge of chunk-end < now (roles and dependences checked) or a sleep for the remaining time", 1)
+	r.Rule("E5-AFTERGEN", "chunks are written only after the segment generator (availability test included) succeeded", 1)
 	nWrites := 0
 	for _, b := range wcs.Blocks {
 		for idx, in := range b.Instrs {
@@ -81,12 +81,12 @@ func checkC09(p *Program, r *Reporter) {
 			}
 			nWrites++
 			pos := p.pos(c.Pos())
-			// (a)
-			okPace, why := false, "no guarding comparison and no preceding sleep"
-			for _, cd := range ff.dominatingConds(b) {
+			// (a) every path from the loop header to the write passes the true edge of 'chunk end < now'
+			// (roles checked) or a sleep whose duration depends on chunk end and request time
+			validCond := func(cd cond) (bool, string) {
 				bo, isBo := cd.V.(*ssa.BinOp)
 				if !isBo {
-					continue
+					return false, ""
 				}
 				var avail, now ssa.Value
 				switch {
@@ -95,37 +95,87 @@ func checkC09(p *Program, r *Reporter) {
 				case (bo.Op == token.GTR || bo.Op == token.GEQ) && cd.Pos, (bo.Op == token.LEQ || bo.Op == token.LSS) && !cd.Pos:
 					avail, now = bo.Y, bo.X
 				default:
-					continue
+					return false, ""
 				}
 				if !isNow(avail) && !isNow(now) {
-					continue // not a comparison with the request time
+					return false, "" // not a comparison with the request time
 				}
 				okA, miss := isAvail(avail)
 				if okA && isNow(now) {
-					okPace, why = true, "guarded by "+bo.String()+": chunk end (durations, media time, start time) against the request time"
-					break
+					return true, ""
 				}
 				if !okA && isNow(avail) {
 					if okN, _ := isAvail(now); okN {
-						why = "the guarding comparison " + bo.String() + " is reversed: the chunk is written while its end time is still in the future"
+						return false, "the guarding comparison " + bo.String() + " is reversed: the chunk is written while its end time is still in the future"
 					}
-				} else if !okA {
-					why = "the chunk end time compared in " + bo.String() + " cannot depend on " + miss
 				}
+				if !okA {
+					return false, "the chunk end time compared in " + bo.String() + " cannot depend on " + miss
+				}
+				return false, ""
 			}
-			if !okPace {
-				for k := idx - 1; k >= 0; k-- {
-					if sl, ok := isCallTo(b.Instrs[k], "time.Sleep"); ok {
+			validSleep := func(blk *ssa.BasicBlock, before int) (bool, string) {
+				for k := before - 1; k >= 0; k-- {
+					if sl, ok := isCallTo(blk.Instrs[k], "time.Sleep"); ok {
 						arg := sl.Call.Args[0]
 						okA, miss := isAvail(arg)
-						if okA && isNow(arg) {
-							okPace, why = true, "preceded by a sleep whose duration depends on the chunk end time and on the request time"
-						} else if !okA {
-							why = "the sleep before the write cannot depend on " + miss
-						} else {
-							why = "the sleep before the write cannot depend on the request time"
+						switch {
+						case okA && isNow(arg):
+							return true, ""
+						case !okA:
+							return false, "the sleep before the write cannot depend on " + miss
+						default:
+							return false, "the sleep before the write cannot depend on the request time"
 						}
-						break
+					}
+				}
+				return false, ""
+			}
+			var header *ssa.BasicBlock
+			for d := b.Idom(); d != nil; d = d.Idom() {
+				if loopExitTest(d) && naturalLoop(d)[b] {
+					header = d
+					break
+				}
+			}
+			okPace, why := true, "every path to the write passes 'chunk end < now' or a sleep for the remaining time"
+			if header == nil {
+				okPace, why = false, "the chunk write is not inside the pacing loop"
+			} else {
+				onPath := map[*ssa.BasicBlock]bool{}
+				var back func(x *ssa.BasicBlock, before int) bool
+				back = func(x *ssa.BasicBlock, before int) bool {
+					if ok, w := validSleep(x, before); ok {
+						return true
+					} else if w != "" {
+						why = w
+					}
+					if x == header {
+						return false
+					}
+					if onPath[x] {
+						return true // a cycle inside the body: judged on its other entries
+					}
+					onPath[x] = true
+					defer delete(onPath, x)
+					for _, pr := range x.Preds {
+						if ec, ok := edgeCond(pr, x); ok {
+							if v, w := validCond(ec); v {
+								continue
+							} else if w != "" {
+								why = w
+							}
+						}
+						if !back(pr, len(pr.Instrs)) {
+							return false
+						}
+					}
+					return len(x.Preds) > 0
+				}
+				if !back(b, idx) {
+					okPace = false
+					if why == "every path to the write passes 'chunk end < now' or a sleep for the remaining time" {
+						why = "a path from the loop header reaches the write without a guarding comparison and without a sleep"
 					}
 				}
 			}
